@@ -33,8 +33,12 @@ let res_string = function
 
 let () =
   let s = ref (init { full = false; fixed = false; quorum = nat_of_int 3 }) in
-  let do_op o hist =
-    let (s', r) = step !s o in
+  let do_op ?(refused = false) o hist =
+    let (s', r) = if refused
+      then (match o with
+            | ODecided (h, m, v, l) -> xstep !s (XDecidedRefused (h, m, v, l))
+            | _ -> failwith "refused")
+      else step !s o in
     s := s';
     let c = s'.ct in
     let insts = match c.insts with [] -> "-" | l -> String.concat "," (List.map inst_string l) in
@@ -56,6 +60,14 @@ let () =
              do_op (ODecided (n_of_string h, { c_round = n_of_string r; c_signers = ids },
                               bool_of_string v, bool_of_string l)) (Some (n_of_string h))
          | _ -> failwith "decided")
+    | "DECIDEDWF" :: h :: r :: _ :: rest ->
+        (* the same message while the database refuses every write *)
+        let (ids, rest) = parse_ids rest in
+        (match rest with
+         | [ v; l ] ->
+             do_op ~refused:true (ODecided (n_of_string h, { c_round = n_of_string r; c_signers = ids },
+                              bool_of_string v, bool_of_string l)) (Some (n_of_string h))
+         | _ -> failwith "decidedwf")
     | "LOCAL" :: h :: rest ->
         let (ids, _) = parse_ids rest in
         do_op (OLocal (n_of_string h, ids)) (Some (n_of_string h))
